@@ -192,6 +192,9 @@ func (w *ReloadWorld) addV(rule, loc, format string, a ...any) {
 	if strings.HasPrefix(loc, "reloadfail/secret") {
 		props = "C18,C08" // secrets that cannot be loaded: authentication has to fail closed
 	}
+	if strings.HasSuffix(loc, "/api") {
+		props += ",C11" // the Pull / Admin API honoured a token list that is not the running configuration's
+	}
 	v := viol(rule, props, format, a...)
 	v.Loc = loc
 	w.Res.Violations = append(w.Res.Violations, v)
@@ -561,6 +564,14 @@ func init() {
 		Rule:       "failed reload (unreadable file, parse error, compile error, unloadable inline secret / named secret version / route pull token, restart-required change) on generated stateless configurations; a fixed probe set of requests must give identical outcomes (status, Allow, enqueued route/target set) before and after, and the original file must still reload; non-trivial = >=1 probe before and after; distinct = (fault kind) x config shapes",
 		RealStub:   sysRealStub,
 		Quick:      2500, Thorough: 60000,
+	})
+	Register(&CheckSpec{
+		Prop: "C11", World: "reloadfail",
+		Gen:  GenReloadFailProgram, Run: RunReloadFailProgram,
+		NonTrivial: func(p *Program, r *Result) bool { return r.Ops >= 3 },
+		Rule:       "refused reloads (unreadable file, parse / compile error, unloadable secret, restart required) whose new configuration changes pull / admin token lists: afterwards the Pull and Admin APIs honour exactly the token lists of the configuration that is still running; non-trivial = >=1 probe before and after",
+		RealStub:   sysRealStub,
+		Quick:      1200, Thorough: 30000,
 	})
 	Register(&CheckSpec{
 		Prop: "C08", World: "reloadfail",
